@@ -40,6 +40,10 @@ FromSlices(ds) == IF ds.chunks[1] \in {SliceContent(code) : code \in Codes} THEN
 Class(c, D) == IF c.op = "Convert" THEN ShOf(D[c.src]) \o ShOf(D[c.d]) \o c.copy \o FromSlices(D[c.src])
                ELSE IF c.op \in {"Vol", "Slices", "Compute", "Stats"}
                     THEN ShOf(D[c.d]) \o FromSlices(D[c.d])
+               \* all-in-one on a directory that already has an info: with ("f") or
+               \* without ("e") the full-resolution chunks
+               ELSE IF c.op = "AllInOne"
+                    THEN (IF D[c.d].chunks[1] = "absent" THEN "e" ELSE "f")
                ELSE "-"
 
 GenInit == Init /\ hist = << >> /\ exits = << >> /\ last = <<"-", 0, FALSE, "-">>
